@@ -53,7 +53,7 @@ fn push_solve<VS: HSet>(sink: &mut Sink, prop: &str, r: &SolveReq<VS>) -> usize 
 
 pub fn gen_solver<VS: HSet>(sink: &mut Sink, prop: &str, thorough: bool, seed: u64, debug: bool, n_random: usize) {
     let mut rng = Rng::new(seed ^ 0x5151);
-    let versions: Vec<u32> = if VS::KIND == "range" { vec![1, 3, 5] } else { vec![0, 1, 2, 5] };
+    let versions: Vec<u32> = if VS::KIND == "range" { vec![1, 3, 5] } else if VS::KIND == "bits2" { vec![0, 1] } else { vec![0, 1, 2, 5] };
     let strategies = [Strat::NewestFewest, Strat::OldestFewest, Strat::Const, Strat::Random(7)];
     for (reg, root, rv) in corpus::<VS>() {
         for st in &strategies {
@@ -254,6 +254,8 @@ pub fn gen_c17(sink: &mut Sink, thorough: bool, seed: u64, debug: bool) {
     }
     // (b) the solver with the custom version set
     gen_solver::<BitSet8>(sink, "C17", thorough, seed, debug, crate::util::scaled(if thorough { 100_000 } else { 6_000 }));
+    gen_solver::<crate::hset::BitSet2>(sink, "C17", thorough, seed ^ 0x22, debug, crate::util::scaled(if thorough { 40_000 } else { 3_000 }));
+    sink.notes.push("the solver also over a custom set with a 2-element universe (the versions of one package cover it: a merged dependent set equals full())".into());
     let _: BTreeMap<u8, u8> = BTreeMap::new();
 }
 
